@@ -1098,6 +1098,9 @@ func checkC17(w *World) {
 	}
 	armOf := func(b *ssa.BasicBlock) string {
 		for name, ifi := range arms {
+			if ifi.Parent() != b.Parent() {
+				continue // dominance is a relation inside one function
+			}
 			if ifi.Block().Succs[0] == b || ifi.Block().Succs[0].Dominates(b) {
 				return name
 			}
